@@ -12,6 +12,7 @@ the top of a 512-byte private stack in all three engines; (R09.f) legacy loads a
 packet pointer (interpreter: mem; JIT: the saved third argument; Cranelift: first parameter)."""
 import clmodel
 import imodel
+import isa
 import jitmodel
 import symex
 import terms as T
@@ -73,7 +74,7 @@ def _pointer_stores(F, path):
     return (sorted(set(problems)) or "%d running paths, both stores on each" % runs), not problems
 
 
-def run(rep, tier):
+def run(rep, tier, parts=("jit", "ctor", "interp", "cranelift")):
     cx = Ctx(rep, "std")
     F = cx.F
     jm = jitmodel.JitModel(cx)
@@ -81,150 +82,189 @@ def run(rep, tier):
     if not (jm.ok and im.ok):
         return
     STACK = F.const("ebpf::STACK_SIZE")
-    # ---- JIT prologue per wrapper flags
-    rj = rep.rule("R09.j", "JIT prologue: r1, r10, packet base and fixed-mbuff pointer stores per wrapper flags", floor=3)
-    want_r1 = {(False, False): "MEM_PTR", (True, False): "MBUFF_PTR", (True, True): "MBUFF_PTR"}
-    for flags in ((False, False), (True, False), (True, True)):
-        frs = [f for f in jitmodel.frame_templates(jm, *flags) if f["ok"]]
-        good, found = len(frs) == 1, {}
-        if good:
-            ins = X.decode(frs[0]["prologue"])
-            ms = X.run(ins, entry_machine(jm))
-            good = len(ms) == 1
+    if "jit" in parts:
+        # ---- JIT prologue per wrapper flags
+        rj = rep.rule("R09.j", "JIT prologue: r1, r10, packet base and fixed-mbuff pointer stores per wrapper flags", floor=3)
+        want_r1 = {(False, False): "MEM_PTR", (True, False): "MBUFF_PTR", (True, True): "MBUFF_PTR"}
+        for flags in ((False, False), (True, False), (True, True)):
+            frs = [f for f in jitmodel.frame_templates(jm, *flags) if f["ok"]]
+            good, found = len(frs) == 1, {}
             if good:
-                m = ms[0]
-                r1 = m.regs[jm.regmap[1]]
-                r10 = m.regs[jm.regmap[10]]
-                rsp = m.regs[X.RSP]
-                top = jitmodel.rsp_offset(r10)
-                # the region [top-512, top) must have been allocated below r10 before the body runs
-                alloc = jitmodel.rsp_offset(rsp)
-                stores = [(w, a, x) for w, a, x in m.stores]
-                exp_stores = []
-                if flags == (True, True):
-                    exp_stores = [(64, T.op("add", 64, ("v", "MBUFF_PTR", 64), ("v", "DATA_OFF", 64)), ("v", "MEM_PTR", 64)),
-                                  (64, T.op("add", 64, ("v", "MBUFF_PTR", 64), ("v", "DATA_END_OFF", 64)),
-                                   T.op("add", 64, ("v", "MEM_PTR", 64), ("v", "MEM_LEN", 64)))]
-                found = {"r1": T.show(r1), "r10_offset": top, "rsp_offset": alloc, "packet_base": T.show(m.regs[X.R10]),
-                         "stores": [(w, T.show(a), T.show(x)) for w, a, x in stores]}
-                good = r1 == ("v", want_r1[flags], 64) and top is not None and alloc is not None and top - alloc >= STACK + 8 and \
-                    m.regs[X.R10] == ("v", "MEM_PTR", 64) and stores == exp_stores
-                # epilogue mirrors the prologue
-                epi = X.decode(frs[0]["epilogue"])
-                pushes = [i.reg for i in ins if i.mn == "push"]
-                pops = [i.reg for i in epi if i.mn == "pop"]
-                subs = [i for i in ins if i.mn == "alu" and i.op == "sub" and i.dst == ("reg", X.RSP)]
-                adds = [i for i in epi if i.mn == "alu" and i.op == "add" and i.dst == ("reg", X.RSP)]
-                mirror = pops == list(reversed(pushes)) and len(subs) == 1 and len(adds) == 1 and subs[0].src == adds[0].src and epi[-1].mn == "ret"
-                found["epilogue_mirrors_prologue"] = mirror
-                found["callee_saved_pushed"] = sorted(pushes)
-                good = good and mirror and set(pushes) >= {jm.regmap[k] for k in (6, 7, 8, 9, 10)}
-        rep.ob(rj, "flags=%s" % (flags,), good, "JIT prologue/epilogue for (use_mbuff, update_data_ptr) = %s" % (flags,),
-               expected={"r1": want_r1[flags], "r10": "top of a 512-byte area below the saved registers", "packet_base": "MEM_PTR"}, found=found, sample=True)
+                ins = X.decode(frs[0]["prologue"])
+                ms = X.run(ins, entry_machine(jm))
+                good = len(ms) == 1
+                if good:
+                    m = ms[0]
+                    r1 = m.regs[jm.regmap[1]]
+                    r10 = m.regs[jm.regmap[10]]
+                    rsp = m.regs[X.RSP]
+                    top = jitmodel.rsp_offset(r10)
+                    # the region [top-512, top) must have been allocated below r10 before the body runs
+                    alloc = jitmodel.rsp_offset(rsp)
+                    stores = [(w, a, x) for w, a, x in m.stores]
+                    exp_stores = []
+                    if flags == (True, True):
+                        exp_stores = [(64, T.op("add", 64, ("v", "MBUFF_PTR", 64), ("v", "DATA_OFF", 64)), ("v", "MEM_PTR", 64)),
+                                      (64, T.op("add", 64, ("v", "MBUFF_PTR", 64), ("v", "DATA_END_OFF", 64)),
+                                       T.op("add", 64, ("v", "MEM_PTR", 64), ("v", "MEM_LEN", 64)))]
+                    found = {"r1": T.show(r1), "r10_offset": top, "rsp_offset": alloc, "packet_base": T.show(m.regs[X.R10]),
+                             "stores": [(w, T.show(a), T.show(x)) for w, a, x in stores]}
+                    good = r1 == ("v", want_r1[flags], 64) and top is not None and alloc is not None and top - alloc >= STACK + 8 and \
+                        m.regs[X.R10] == ("v", "MEM_PTR", 64) and stores == exp_stores
+                    # epilogue mirrors the prologue
+                    epi = X.decode(frs[0]["epilogue"])
+                    pushes = [i.reg for i in ins if i.mn == "push"]
+                    pops = [i.reg for i in epi if i.mn == "pop"]
+                    subs = [i for i in ins if i.mn == "alu" and i.op == "sub" and i.dst == ("reg", X.RSP)]
+                    adds = [i for i in epi if i.mn == "alu" and i.op == "add" and i.dst == ("reg", X.RSP)]
+                    mirror = pops == list(reversed(pushes)) and len(subs) == 1 and len(adds) == 1 and subs[0].src == adds[0].src and epi[-1].mn == "ret"
+                    found["epilogue_mirrors_prologue"] = mirror
+                    found["callee_saved_pushed"] = sorted(pushes)
+                    good = good and mirror and set(pushes) >= {jm.regmap[k] for k in (6, 7, 8, 9, 10)}
+            rep.ob(rj, "flags=%s" % (flags,), good, "JIT prologue/epilogue for (use_mbuff, update_data_ptr) = %s" % (flags,),
+                   expected={"r1": want_r1[flags], "r10": "top of a 512-byte area below the saved registers", "packet_base": "MEM_PTR"}, found=found, sample=True)
 
-    # ---- wrappers: flags and arguments
-    rw = rep.rule("R09.b", "wrappers pass the documented flags / slices; empty packet -> null in compiled paths", floor=6)
-    flags_want = {"EbpfVmMbuff": [True, False], "EbpfVmFixedMbuff": [True, True], "EbpfVmRaw": [False, False]}
-    for kind, want in flags_want.items():
-        fn = F.fns.get(kind + "::jit_compile")
-        got = None
+        # ---- legacy packet loads address the packet for every index register
+        rl = rep.rule("R09.l", "x86 JIT: absolute / indirect packet loads read packet + (src) + imm, for every index register, as the interpreter does", floor=8)
+        import props.c03 as c03
+        for v, d in sorted(isa.TABLE.items()):
+            if d["kind"] not in ("ldabs", "ldind"):
+                continue
+            srcs = range(11) if d["kind"] == "ldind" else (0,)
+            bad = {}
+            for sreg in srcs:
+                ips = c03.interp_paths(im, v, 0, sreg)
+                jps, problems = c03.jit_paths(jm, v, 0, sreg)
+                diffs = problems + (c03.compare(ips, jps, legacy_load=True) if not problems else [])
+                if diffs:
+                    bad.setdefault(tuple(diffs[:2]), []).append(sreg)
+            rep.ob(rl, "opc=%#04x" % v, not bad, "opcode %#04x (%s): JIT template vs interpreter for %d index registers" % (v, d["kind"], len(list(srcs))),
+                   expected="equal effect summaries", found=[(list(k), regs) for k, regs in bad.items()][:2] or "agree")
+        # ---- wrappers: flags and arguments
+        rw = rep.rule("R09.b", "wrappers pass the documented flags / slices; empty packet -> null in compiled paths", floor=6)
+        flags_want = {"EbpfVmMbuff": [True, False], "EbpfVmFixedMbuff": [True, True], "EbpfVmRaw": [False, False]}
+        for kind, want in flags_want.items():
+            fn = F.fns.get(kind + "::jit_compile")
+            got = None
+            if fn:
+                for n in walk(fn["thir"]["body"]):
+                    if n.get("k") == "call" and (callee_path(n) or "").endswith("JitMemory::new"):
+                        got = [strip(a).get("v") for a in n["args"] if strip(a).get("k") == "lit" and strip(a).get("lk") == "bool"]
+            rep.ob(rw, "%s::jit_compile" % kind, got == want, "%s::jit_compile flags (use_mbuff, update_data_ptr)" % kind, expected=want, found=got)
+        for kind in ("EbpfVmMbuff", "EbpfVmFixedMbuff"):
+            fn = F.fns.get(kind + "::execute_program_jit")
+            ok = False
+            if fn:
+                # `match mem.len() { 0 => null_mut(), _ => mem.as_ptr() }` feeds the third argument
+                txt = [n for n in walk(fn["thir"]["body"]) if n.get("k") == "match" and "len" in repr(n["scrut"])[:400]]
+                ok = any(any((callee_path(x) or "").endswith("null_mut") for x in walk(m["arms"][0]["body"])) and m["arms"][0]["pat"].get("v") == 0 for m in txt)
+            rep.ob(rw, "%s::execute_program_jit/null" % kind, ok, "%s::execute_program_jit passes a null packet pointer for an empty packet" % kind,
+                   expected="match mem.len() { 0 => null, _ => ptr }", found=ok)
+        # Raw / NoData delegate with empty metadata buffer / empty packet
+        for path, what in (("EbpfVmRaw::execute_program", "&[]"), ("EbpfVmNoData::execute_program", "&mut []")):
+            fn = F.fns.get(path)
+            ok = bool(fn) and any(n.get("k") == "array" and not n["es"] for n in walk(fn["thir"]["body"]))
+            rep.ob(rw, path, ok, "%s delegates with an empty slice" % path, expected=what, found=ok)
+
+    if "ctor" in parts:
+        # ---- fixed mbuff: buffer length and pointer stores in the interpreter wrapper
+        rc = rep.rule("R09.c", "fixed-mbuff buffer length == max(data_offset, data_end_offset) + 8 in new and set_program", floor=2)
+        ev = symex.Evaluator(F)
+        x, y = T.V("x", 64), T.V("y", 64)
+        for path in ("EbpfVmFixedMbuff::new", "EbpfVmFixedMbuff::set_program"):
+            clos = [p for p in F.fns if p.startswith(path + "::{closure")]
+            good = False
+            found = clos
+            if len(clos) == 1:
+                outs = ev.run_fn(clos[0], [x, y]) or []
+                got = sorted((tuple(T.show(c) for c in s.conds), T.show(v)) for v, s in outs)
+                want = sorted([((T.show(T.cmp("uge", 64, x, y)),), T.show(T.op("add", 64, x, T.K(64, 8)))),
+                               ((T.show(T.cmp("ult", 64, x, y)),), T.show(T.op("add", 64, y, T.K(64, 8))))])
+                good, found = got == want, got
+            rep.ob(rc, path, good, "buffer length closure of %s" % path, expected="x >= y ? x + 8 : y + 8", found=found)
+
+        # constructor: offsets stored as given, zeroed buffer of the length decided by R09.c, parent built from the program
+        rn = rep.rule("R09.n", "EbpfVmFixedMbuff::new stores the two offsets as given and a zeroed buffer of max(offsets)+8 bytes", floor=1)
+        import props.c10 as c10
+        pathn = "EbpfVmFixedMbuff::new"
+        fnn = F.fns.get(pathn)
+        okn, foundn = False, "missing"
+        if fnn:
+            evn = symex.Evaluator(F, opaque_calls=lambda q: q.endswith("EbpfVmMbuff::new"))
+            an = [evn.sym_for("a%d" % i, q["ty"]) for i, q in enumerate(fnn["thir"]["params"])]
+            outs = evn.run_fn(pathn, an) or []
+            oks = [(v, st) for v, st in outs if c10.result_kind(v) == "Ok"]
+            probs = []
+            for v, st in oks:
+                fl = c10.flat(symex.sfield(v, "0"))
+                if fl.get("mbuff.data_offset") != an[1] or fl.get("mbuff.data_end_offset") != an[2]:
+                    probs.append("offsets not stored as given")
+                fe = [e for e in st.effects if e[0] == "call" and e[1] == "core::vec::from_elem" and e[3] == fl.get("mbuff.buffer")]
+                want = {T.op("add", 64, an[1], T.K(64, 8)), T.op("add", 64, an[2], T.K(64, 8))}
+                if not (len(fe) == 1 and fe[0][2][0] == T.K(8, 0) and fe[0][2][1] in want):
+                    probs.append("buffer is not vec![0; offset + 8]")
+                pc = [e for e in st.effects if e[0] == "call" and isinstance(e[1], str) and e[1].endswith("EbpfVmMbuff::new")]
+                if not (len(pc) == 1 and pc[0][2][0] == an[0]):
+                    probs.append("parent VM not built from the given program")
+            okn, foundn = bool(oks) and not probs, sorted(set(probs)) or "%d Ok paths" % len(oks)
+        rep.ob(rn, pathn, okn, "EbpfVmFixedMbuff::new Ok paths", expected="mbuff = { data_offset, data_end_offset, vec![0; max + 8] }, parent = EbpfVmMbuff::new(prog)", found=foundn)
+
+    rd = rep.rule("R09.d", "fixed-mbuff executions store the packet start / end pointers at the configured offsets",
+                  floor=("interp" in parts) + ("cranelift" in parts)) if ("interp" in parts or "cranelift" in parts) else None
+    if "interp" in parts:
+        for path in ["EbpfVmFixedMbuff::execute_program"]:
+            found, good = _pointer_stores(F, path)
+            rep.ob(rd, path, good, "%s: on every path that runs the program, little-endian u64 writes into the internal buffer" % path,
+                   expected="buffer[data_offset..] := mem.as_ptr(), buffer[data_end_offset..] := mem.as_ptr() + mem.len(), unconditionally", found=found)
+
+        # ---- interpreter r1 / r10 are decided under C01/R01.f; cite
+        ri = rep.rule("R09.i", "interpreter initial r1/r10 (shared with C01/R01.f) and legacy-load base == packet", floor=1)
+        base_ok = True
+        for v in (0x20, 0x28, 0x30, 0x38, 0x40, 0x48, 0x50, 0x58):
+            for p in im.summary(v):
+                for val in p["regs"].values():
+                    if "load" in repr(val) and "'MEM'" not in repr(val):
+                        base_ok = False
+        rep.ob(ri, "legacy-base", base_ok and im.param_role.get("MEM") is not None, "legacy loads address the packet slice",
+               expected="as_ptr(MEM) + ...", found=base_ok)
+
+    if "cranelift" in parts:
+        # ---- Cranelift
+        cc = Ctx(rep, "cranelift")
+        rcl = rep.rule("R09.cl", "Cranelift prelude: r1 = select(mbuf_len != 0, mbuf, mem), r10 = stack slot top; wrappers pass (mem, len, mbuf, len)", floor=2)
+        from props.c11 import _prelude
+        ok, found = _prelude(cc)
+        rep.ob(rcl, "prelude-regions", ok, "Cranelift prelude region variables and r10", expected="see C11/R11.d", found=found)
+        Fc = cc.F
+        fn = Fc.fns.get("EbpfVmMbuff::execute_program_cranelift")
+        ok2 = False
         if fn:
             for n in walk(fn["thir"]["body"]):
-                if n.get("k") == "call" and (callee_path(n) or "").endswith("JitMemory::new"):
-                    got = [strip(a).get("v") for a in n["args"] if strip(a).get("k") == "lit" and strip(a).get("lk") == "bool"]
-        rep.ob(rw, "%s::jit_compile" % kind, got == want, "%s::jit_compile flags (use_mbuff, update_data_ptr)" % kind, expected=want, found=got)
-    for kind in ("EbpfVmMbuff", "EbpfVmFixedMbuff"):
-        fn = F.fns.get(kind + "::execute_program_jit")
-        ok = False
-        if fn:
-            # `match mem.len() { 0 => null_mut(), _ => mem.as_ptr() }` feeds the third argument
-            txt = [n for n in walk(fn["thir"]["body"]) if n.get("k") == "match" and "len" in repr(n["scrut"])[:400]]
-            ok = any(any((callee_path(x) or "").endswith("null_mut") for x in walk(m["arms"][0]["body"])) and m["arms"][0]["pat"].get("v") == 0 for m in txt)
-        rep.ob(rw, "%s::execute_program_jit/null" % kind, ok, "%s::execute_program_jit passes a null packet pointer for an empty packet" % kind,
-               expected="match mem.len() { 0 => null, _ => ptr }", found=ok)
-    # Raw / NoData delegate with empty metadata buffer / empty packet
-    for path, what in (("EbpfVmRaw::execute_program", "&[]"), ("EbpfVmNoData::execute_program", "&mut []")):
-        fn = F.fns.get(path)
-        ok = bool(fn) and any(n.get("k") == "array" and not n["es"] for n in walk(fn["thir"]["body"]))
-        rep.ob(rw, path, ok, "%s delegates with an empty slice" % path, expected=what, found=ok)
-
-    # ---- fixed mbuff: buffer length and pointer stores in the interpreter wrapper
-    rc = rep.rule("R09.c", "fixed-mbuff buffer length == max(data_offset, data_end_offset) + 8 in new and set_program", floor=2)
-    ev = symex.Evaluator(F)
-    x, y = T.V("x", 64), T.V("y", 64)
-    for path in ("EbpfVmFixedMbuff::new", "EbpfVmFixedMbuff::set_program"):
-        clos = [p for p in F.fns if p.startswith(path + "::{closure")]
-        good = False
-        found = clos
-        if len(clos) == 1:
-            outs = ev.run_fn(clos[0], [x, y]) or []
-            got = sorted((tuple(T.show(c) for c in s.conds), T.show(v)) for v, s in outs)
-            want = sorted([((T.show(T.cmp("uge", 64, x, y)),), T.show(T.op("add", 64, x, T.K(64, 8)))),
-                           ((T.show(T.cmp("ult", 64, x, y)),), T.show(T.op("add", 64, y, T.K(64, 8))))])
-            good, found = got == want, got
-        rep.ob(rc, path, good, "buffer length closure of %s" % path, expected="x >= y ? x + 8 : y + 8", found=found)
-
-    # constructor: offsets stored as given, zeroed buffer of the length decided by R09.c, parent built from the program
-    rn = rep.rule("R09.n", "EbpfVmFixedMbuff::new stores the two offsets as given and a zeroed buffer of max(offsets)+8 bytes", floor=1)
-    import props.c10 as c10
-    pathn = "EbpfVmFixedMbuff::new"
-    fnn = F.fns.get(pathn)
-    okn, foundn = False, "missing"
-    if fnn:
-        evn = symex.Evaluator(F, opaque_calls=lambda q: q.endswith("EbpfVmMbuff::new"))
-        an = [evn.sym_for("a%d" % i, q["ty"]) for i, q in enumerate(fnn["thir"]["params"])]
-        outs = evn.run_fn(pathn, an) or []
-        oks = [(v, st) for v, st in outs if c10.result_kind(v) == "Ok"]
-        probs = []
-        for v, st in oks:
-            fl = c10.flat(symex.sfield(v, "0"))
-            if fl.get("mbuff.data_offset") != an[1] or fl.get("mbuff.data_end_offset") != an[2]:
-                probs.append("offsets not stored as given")
-            fe = [e for e in st.effects if e[0] == "call" and e[1] == "core::vec::from_elem" and e[3] == fl.get("mbuff.buffer")]
-            want = {T.op("add", 64, an[1], T.K(64, 8)), T.op("add", 64, an[2], T.K(64, 8))}
-            if not (len(fe) == 1 and fe[0][2][0] == T.K(8, 0) and fe[0][2][1] in want):
-                probs.append("buffer is not vec![0; offset + 8]")
-            pc = [e for e in st.effects if e[0] == "call" and isinstance(e[1], str) and e[1].endswith("EbpfVmMbuff::new")]
-            if not (len(pc) == 1 and pc[0][2][0] == an[0]):
-                probs.append("parent VM not built from the given program")
-        okn, foundn = bool(oks) and not probs, sorted(set(probs)) or "%d Ok paths" % len(oks)
-    rep.ob(rn, pathn, okn, "EbpfVmFixedMbuff::new Ok paths", expected="mbuff = { data_offset, data_end_offset, vec![0; max + 8] }, parent = EbpfVmMbuff::new(prog)", found=foundn)
-
-    rd = rep.rule("R09.d", "fixed-mbuff executions store the packet start / end pointers at the configured offsets", floor=2)
-    for path in ["EbpfVmFixedMbuff::execute_program"]:
-        found, good = _pointer_stores(F, path)
-        rep.ob(rd, path, good, "%s: on every path that runs the program, little-endian u64 writes into the internal buffer" % path,
-               expected="buffer[data_offset..] := mem.as_ptr(), buffer[data_end_offset..] := mem.as_ptr() + mem.len(), unconditionally", found=found)
-
-    # ---- interpreter r1 / r10 are decided under C01/R01.f; cite
-    ri = rep.rule("R09.i", "interpreter initial r1/r10 (shared with C01/R01.f) and legacy-load base == packet", floor=1)
-    base_ok = True
-    for v in (0x20, 0x28, 0x30, 0x38, 0x40, 0x48, 0x50, 0x58):
-        for p in im.summary(v):
-            for val in p["regs"].values():
-                if "load" in repr(val) and "'MEM'" not in repr(val):
-                    base_ok = False
-    rep.ob(ri, "legacy-base", base_ok and im.param_role.get("MEM") is not None, "legacy loads address the packet slice",
-           expected="as_ptr(MEM) + ...", found=base_ok)
-
-    # ---- Cranelift
-    cc = Ctx(rep, "cranelift")
-    rcl = rep.rule("R09.cl", "Cranelift prelude: r1 = select(mbuf_len != 0, mbuf, mem), r10 = stack slot top; wrappers pass (mem, len, mbuf, len)", floor=2)
-    from props.c11 import _prelude
-    ok, found = _prelude(cc)
-    rep.ob(rcl, "prelude-regions", ok, "Cranelift prelude region variables and r10", expected="see C11/R11.d", found=found)
-    Fc = cc.F
-    fn = Fc.fns.get("EbpfVmMbuff::execute_program_cranelift")
-    ok2 = False
-    if fn:
-        for n in walk(fn["thir"]["body"]):
-            if n.get("k") == "call" and (callee_path(n) or "").endswith("CraneliftProgram::execute"):
-                a = [repr(x) for x in n["args"][1:]]
-                ok2 = len(a) == 4 and "mem_ptr" in a[0] and "'mem'" in a[1] and "mbuff" in a[2] and "mbuff" in a[3]
-    found, good = _pointer_stores(Fc, "EbpfVmFixedMbuff::execute_program_cranelift")
-    rep.ob(rd, "EbpfVmFixedMbuff::execute_program_cranelift", good,
-           "EbpfVmFixedMbuff::execute_program_cranelift: on every path that runs the program, little-endian u64 writes into the internal buffer",
-           expected="buffer[data_offset..] := mem.as_ptr(), buffer[data_end_offset..] := mem.as_ptr() + mem.len()", found=found)
-    rep.ob(rcl, "wrapper-args", ok2, "EbpfVmMbuff::execute_program_cranelift argument order", expected="(mem_ptr, mem.len(), mbuff.as_ptr(), mbuff.len())", found=ok2)
+                if n.get("k") == "call" and (callee_path(n) or "").endswith("CraneliftProgram::execute"):
+                    a = [repr(x) for x in n["args"][1:]]
+                    ok2 = len(a) == 4 and "mem_ptr" in a[0] and "'mem'" in a[1] and "mbuff" in a[2] and "mbuff" in a[3]
+        found, good = _pointer_stores(Fc, "EbpfVmFixedMbuff::execute_program_cranelift")
+        rep.ob(rd, "EbpfVmFixedMbuff::execute_program_cranelift", good,
+               "EbpfVmFixedMbuff::execute_program_cranelift: on every path that runs the program, little-endian u64 writes into the internal buffer",
+               expected="buffer[data_offset..] := mem.as_ptr(), buffer[data_end_offset..] := mem.as_ptr() + mem.len()", found=found)
+        rlc = rep.rule("R09.lc", "Cranelift: absolute / indirect packet loads read packet + (src) + imm, for every index register, as the interpreter does", floor=8)
+        import props.c04 as c04
+        import clmodel as _cl
+        imc, cmc = imodel.InterpModel(cc), _cl.ClModel(cc)
+        if imc.ok and cmc.ok:
+            for v, d in sorted(isa.TABLE.items()):
+                if d["kind"] not in ("ldabs", "ldind"):
+                    continue
+                srcs = range(11) if d["kind"] == "ldind" else (0,)
+                bad = {}
+                for sreg in srcs:
+                    ips = c04.interp_paths(imc, v, 0, sreg)
+                    cps, problems = c04.cl_paths(cmc, v, 0, sreg)
+                    diffs = problems + (c04.compare(ips, cps, d) if not problems else [])
+                    if diffs:
+                        bad.setdefault(tuple(diffs[:2]), []).append(sreg)
+                rep.ob(rlc, "opc=%#04x" % v, not bad, "opcode %#04x (%s): Cranelift template vs interpreter for %d index registers" % (v, d["kind"], len(list(srcs))),
+                       expected="equal effect summaries", found=[(list(k), regs) for k, regs in bad.items()][:2] or "agree")
+        rep.ob(rcl, "wrapper-args", ok2, "EbpfVmMbuff::execute_program_cranelift argument order", expected="(mem_ptr, mem.len(), mbuff.as_ptr(), mbuff.len())", found=ok2)
     rep.trust("rustc front end / typed THIR", "x86model.py", "SysV argument registers at JIT entry", "byteorder::LittleEndian::write_u64")
     rep.assume("overlapping offsets are excluded by the statement", "allocation failure for huge offsets is out of scope")
